@@ -183,7 +183,10 @@ K_DEEP = 'C01:nesting-beyond-parser-stack'
 def c01_deep(ctx):
     """trees nested up to and beyond what the reader's parser stack admits, built through the API (not by reading)"""
     listed = {f['key']: f['what'] for f in vlib.known_findings('C01')}
-    cases = [('list', 10), ('group', 10), ('list', 1000), ('group', 1000), ('list', 1666), ('group', 1666), ('list', 4990), ('list', 5000), ('group', 5000)]
+    # lists are written on one line, so their text stays small at any depth; a chain of groups is indented by depth x
+    # width on every line - its text grows with the SQUARE of the depth (5000 levels: ~50 MB, several hundred MB under
+    # ASan), so groups are kept to depths whose text is a few MB: the verdict must not depend on the memory at hand
+    cases = [('list', 10), ('group', 10), ('list', 1000), ('group', 300), ('list', 1666), ('group', 700), ('list', 4990), ('list', 4996), ('list', 4997), ('list', 5000)]
     def fn(impl, rng, stats):
         for k, n in cases:
             impl.do('c01deep %s %d' % (k, n)); stats['c01:deep:%s:%d' % (k, n)] = 1
